@@ -17,6 +17,8 @@ check must stay silent (exit 0, no ANALYSIS-ERROR) on every transformed tree.
   splitchain  : a <= x < b  ->  a <= x and x < b   (x a plain name)
   retvar      : return <expr>  ->  rv_ = <expr>; return rv_
   extractvar  : y = f(g(a), b)  ->  t1_ = g(a); y = f(t1_, b)
+  docadd      : every function / class without a docstring gets one
+  docstrip    : every docstring is removed
   shift       : three comment lines are inserted at the top of every module (line keys)
 
 usage: generic.py [transform ...] [-j N] [--suite]     (--suite also runs the pinned test
@@ -371,7 +373,25 @@ def t_extractvar(tree, src):
     return ast.unparse(tree)
 
 
-TRANSFORMS = {"unparse": t_unparse, "shift": t_shift, "rename": t_rename, "flipcmp": t_flipcmp, "augassign": t_augassign, "invertif": t_invertif, "noelse": t_noelse, "splitchain": t_splitchain, "retvar": t_retvar, "extractvar": t_extractvar}
+def t_docadd(tree, src):
+    for n in ast.walk(tree):
+        if isinstance(n, (ast.FunctionDef, ast.AsyncFunctionDef, ast.ClassDef)):
+            if not (n.body and isinstance(n.body[0], ast.Expr) and isinstance(n.body[0].value, ast.Constant) and isinstance(n.body[0].value.value, str)):
+                n.body.insert(0, ast.Expr(ast.Constant("Documented by the self-test.")))
+    ast.fix_missing_locations(tree)
+    return ast.unparse(tree)
+
+
+def t_docstrip(tree, src):
+    for n in ast.walk(tree):
+        if isinstance(n, (ast.FunctionDef, ast.AsyncFunctionDef, ast.ClassDef)):
+            if n.body and isinstance(n.body[0], ast.Expr) and isinstance(n.body[0].value, ast.Constant) and isinstance(n.body[0].value.value, str) and len(n.body) > 1:
+                del n.body[0]
+    ast.fix_missing_locations(tree)
+    return ast.unparse(tree)
+
+
+TRANSFORMS = {"unparse": t_unparse, "shift": t_shift, "rename": t_rename, "flipcmp": t_flipcmp, "augassign": t_augassign, "invertif": t_invertif, "noelse": t_noelse, "splitchain": t_splitchain, "retvar": t_retvar, "extractvar": t_extractvar, "docadd": t_docadd, "docstrip": t_docstrip}
 
 
 # ------------------------------------------------------------------ driver
